@@ -2,7 +2,9 @@ package main
 
 import (
 	"fmt"
+	"go/types"
 	"sort"
+	"strings"
 
 	"golang.org/x/tools/go/ssa"
 )
@@ -261,7 +263,7 @@ func ruleStaleAnswered(c *Ctx) {
 	// HandleRegionHeartbeat propagates processRegionHeartbeat's error
 	h := P.Method("server/cluster", "RaftCluster", "HandleRegionHeartbeat")
 	f2 := newSettledEv(h, "processRegionHeartbeat", callMatcher(F(hb)))
-	c.need(rule, h, "successful return", func(x ssa.Instruction) bool { r, ok := x.(*ssa.Return); return ok && retIsNilErr(r) }, []Ev{f2}, all, "the staleness error is propagated")
+	c.needOnSuccess(rule, h, []Ev{f2}, all, "the staleness error is propagated")
 }
 
 // ruleHeartbeatFields: the staleness tests compare what the heartbeat carried;
@@ -301,6 +303,73 @@ func init() {
 		c.Group("C06/heartbeat-fields", "the region built from a heartbeat carries the epoch (meta), the raft term and the leader the staleness tests compare", func() {
 			ruleHeartbeatFields(c, map[string]string{"term": "GetTerm", "meta": "GetRegion", "leader": "GetLeader"})
 		})
+		c.Group("C06/end-key-infinity", "(shared with C07) an end key is ordered against other keys only where it was tested non-empty: the empty end key means +∞", func() { ruleEndKeyInfinity(c) })
 		c.Group("C06/stale-answered", "a stale heartbeat changes nothing and is answered with an error", func() { ruleStaleAnswered(c) })
 	})
+}
+
+// ruleEndKeyInfinity: an empty end key stands for +∞ but sorts before every
+// other key. Wherever server/core orders an end key with bytes.Compare, the
+// comparison is evaluated only on paths where that end key was tested
+// non-empty (len(k) > 0, or the false side of len(k) == 0). An unguarded
+// ordering makes an unbounded region look like the smallest range: overlaps
+// are missed and stale unbounded regions are accepted.
+func ruleEndKeyInfinity(c *Ctx) {
+	P := c.P
+	rule := c.Prop + "/end-key-infinity"
+	isEndKey := func(v ssa.Value) bool {
+		v = strip(v)
+		if cl, ok := v.(*ssa.Call); ok {
+			if f := cl.Call.StaticCallee(); f != nil && f.Name() == "GetEndKey" {
+				return true
+			}
+		}
+		if f := loadedField(v); f != nil && f.Name() == "EndKey" {
+			return true
+		}
+		if p, ok := v.(*ssa.Parameter); ok {
+			if b, isSlice := p.Type().Underlying().(*types.Slice); isSlice {
+				if bt, isB := b.Elem().Underlying().(*types.Basic); isB && bt.Kind() == types.Byte || isB && bt.Kind() == types.Uint8 {
+					return strings.HasPrefix(strings.ToLower(p.Name()), "end")
+				}
+			}
+		}
+		return false
+	}
+	nGetter := 0
+	for _, fn := range P.Funcs {
+		if fn.Pkg == nil || fn.Pkg.Pkg.Path() != modPath+"/server/core" || P.isScaffold(fn) {
+			continue
+		}
+		k := 0
+		for _, b := range fn.Blocks {
+			for _, ins := range b.Instrs {
+				cl, ok := ins.(*ssa.Call)
+				if !ok {
+					continue
+				}
+				f := cl.Call.StaticCallee()
+				if f == nil || f.Pkg == nil || f.Pkg.Pkg.Path() != "bytes" || f.Name() != "Compare" || len(cl.Call.Args) != 2 {
+					continue
+				}
+				for _, a := range cl.Call.Args {
+					if !isEndKey(a) {
+						continue
+					}
+					k++
+					if _, isParam := strip(a).(*ssa.Parameter); !isParam {
+						nGetter++
+					}
+					arg := a
+					target := cl
+					c.need(rule, fn, fmt.Sprintf("ordering comparison #%d of an end key", k), func(x ssa.Instruction) bool { return x == ssa.Instruction(target) },
+						[]Ev{guardRel("the end key is not empty", "> !=", lenOf(same(arg)), isConstInt(0))}, all,
+						"an end key is ordered against another key only where it is known to be non-empty (empty means +∞)")
+				}
+			}
+		}
+	}
+	if nGetter < 2 {
+		c.Undec(rule, "ordering comparisons of region end keys in server/core", "at least 2", "", fmt.Sprint(nGetter))
+	}
 }
